@@ -284,6 +284,8 @@ def build_cm3(r, pages=None, pattern=None, mode=None, first_row_zero=False, alte
                         px[y * 320 + x:y * 320 + x + 2] = px[(y - 1) * 320 + x:(y - 1) * 320 + x + 2]
     if first_row_zero:     # the first line copies from the initial (all zero) line buffer
         px[0:320] = [0] * 320
+    if uniform_rows:       # (every other line really varied, whatever style `rand_pixels` drew)
+        px = [r.randrange(16) for _ in range(rows * 320)]
     if uniform_rows:       # a constant line that repeats the last byte of the varied line above it: every byte is a copy of its left
         for y in (1, 3, 50, 191, rows - 1):     # neighbour, the second mask is empty and the greedy coder writes control byte 0
             px[y * 320:(y + 1) * 320] = [px[y * 320 - 2], px[y * 320 - 1]] * 160
